@@ -1208,6 +1208,9 @@ impl SendSignal for VirtualSystem {
                 Pid(raw_pid) if raw_pid >= 0 => {
                     let mut state = self.state.borrow_mut();
                     match state.processes.get_mut(&target) {
+                        // A terminated process whose state has been reported
+                        // to its parent by `wait` no longer exists.
+                        Some(process) if is_reaped(process) => Err(Errno::ESRCH),
                         Some(process) => {
                             if let Some(signal) = signal {
                                 let result = process.raise_signal(signal);
@@ -1554,6 +1557,9 @@ fn send_signal_to_processes(
     let mut results = Vec::new();
 
     for (&_pid, process) in &mut state.processes {
+        if is_reaped(process) {
+            continue;
+        }
         if target_pgid.is_none_or(|target_pgid| process.pgid == target_pgid) {
             let result = if let Some(signal) = signal {
                 process.raise_signal(signal)
@@ -1574,6 +1580,15 @@ fn send_signal_to_processes(
         }
         Ok(())
     }
+}
+
+/// Tests whether the process has terminated and been waited for by its parent.
+///
+/// Such a process remains in the process table of the virtual system only as a
+/// record; it must not be found by `kill`.
+fn is_reaped(process: &Process) -> bool {
+    matches!(process.state(), ProcessState::Halted(result) if !result.is_stopped())
+        && !process.state_has_changed()
 }
 
 fn raise_sigchld(state: &mut SystemState, target_pid: Pid) {
@@ -2987,6 +3002,31 @@ mod tests {
             .unwrap()
             .unwrap_err();
         assert_eq!(e, Errno::ESRCH);
+    }
+
+    #[test]
+    fn kill_does_not_affect_terminated_process() {
+        let system = VirtualSystem::new();
+        let pgid = system.current_process().pgid;
+        let mut child = Process::with_parent_and_group(system.process_id, pgid);
+        _ = child.set_state(ProcessState::exited(3));
+        system.state.borrow_mut().processes.insert(Pid(10), child);
+
+        // The child is a zombie: signals are accepted but have no effect.
+        for signal in [SIGINT, SIGCONT] {
+            let result = system.kill(Pid(10), Some(signal)).now_or_never().unwrap();
+            assert_eq!(result, Ok(()));
+            let state = system.state.borrow();
+            assert_eq!(state.processes[&Pid(10)].state(), ProcessState::exited(3));
+        }
+
+        // Once the child has been waited for, it no longer exists.
+        let result = system.wait(Pid(10));
+        assert_eq!(result, Ok(Some((Pid(10), ProcessState::exited(3)))));
+        let result = system.kill(Pid(10), Some(SIGINT)).now_or_never().unwrap();
+        assert_eq!(result, Err(Errno::ESRCH));
+        let result = system.kill(Pid(10), None).now_or_never().unwrap();
+        assert_eq!(result, Err(Errno::ESRCH));
     }
 
     #[test]
